@@ -49,6 +49,10 @@ type PageNumberFinder struct {
 	adjacentNumberGroups     *info.MonotonicPageInfoGroups
 	numForwardLinksProcessed int
 
+	// baseURL is the page URL as given by the caller; relative links are resolved
+	// against it (not against the page URL without its trailing slash).
+	baseURL *nurl.URL
+
 	timingInfo *data.TimingInfo
 	logger     logutil.Logger
 }
@@ -69,6 +73,7 @@ func (pnf *PageNumberFinder) FindPagination(root *html.Node, pageURL *nurl.URL) 
 	url.RawPath = url.Path
 	strPageURL := stringutil.UnescapedString(&url)
 
+	pnf.baseURL = pageURL
 	paramInfo := pnf.FindOutlink(root, &url)
 	if paramInfo.Type != info.PageNumber {
 		return
@@ -182,8 +187,13 @@ func (pnf *PageNumberFinder) getPageInfoAndText(link *html.Node, pageURL *nurl.U
 		return nil, ""
 	}
 
+	baseURL := pageURL
+	if pnf.baseURL != nil {
+		baseURL = pnf.baseURL
+	}
+
 	linkHref := dom.GetAttribute(link, "href")
-	linkHref = stringutil.CreateAbsoluteURL(linkHref, pageURL)
+	linkHref = stringutil.CreateAbsoluteURL(linkHref, baseURL)
 
 	isEmptyHref := linkHref == ""
 	isJavascriptLink := strings.HasPrefix(linkHref, "javascript:")
